@@ -9,9 +9,9 @@ import Lean.Data.Json
 import CR.Model.Num
 import CR.Model.Rdfs
 import CR.Model.Solver
--- import CR.Model.Gen
--- import CR.Model.Validate
--- import CR.Model.Batch
+import CR.Model.Gen
+import CR.Model.Validate
+import CR.Model.Batch
 
 open Lean CR
 
@@ -176,6 +176,157 @@ def opRound (j : Json) : Except String Json := do
   pure (Json.mkObj [("outcome", "ok"),
     ("res", Json.arr (xs.map (fun x => Json.str (toString (roundFloat digits x)))))])
 
+namespace CR.Drv
+open CR.Gen CR.Py CR.Batch
+
+def natList (j : Json) : Except String (List Nat) := do
+  let a ← j.getArr?
+  let l ← a.mapM (·.getNat?)
+  pure l.toList
+
+def natMatrix (j : Json) : Except String (List (List Nat)) := do
+  let a ← j.getArr?
+  let l ← a.mapM natList
+  pure l.toList
+
+def parseBoard (j : Json) : Except String Board := do
+  pure { moves := ← natMatrix (← j.getObjVal? "moves"),
+         rewards := ← natMatrix (← j.getObjVal? "rewards"),
+         loose := ← natMatrix (← j.getObjVal? "loose") }
+
+def ownerNum : Owner → Nat
+  | .prob => 0
+  | .p1 => 1
+  | .p2 => 2
+
+def genGameJson {α : Type} (c : Codec α) (g : GenGame α) : Json :=
+  Json.mkObj [("rewards", Json.arr (g.rewards.toArray.map (fun (n : Nat) => Json.num n))),
+    ("players", Json.arr (g.owners.toArray.map (fun o => Json.num (ownerNum o)))),
+    ("tl", nodesJson c g.tl.toArray),
+    ("finals", Json.arr (g.finals.toArray.map (fun (n : Nat) => Json.num n)))]
+
+def opGenWith {α : Type} [Sub α] [OfNat α 0] [OfNat α 1] (c : Codec α) (j : Json) : Except String Json := do
+  let L ← getNat j "L"
+  let W ← getNat j "W"
+  let b ← parseBoard (← j.getObjVal? "board")
+  let pT ← parseNum c (← j.getObjVal? "ptile")
+  let pR ← parseNum c (← j.getObjVal? "probot")
+  let pL ← parseNum c (← j.getObjVal? "plight")
+  pure (Json.mkObj [("outcome", "ok"), ("game_a", genGameJson c (gameA L W b pT)),
+    ("game_b", genGameJson c (gameB L W b pT pR)), ("game_c", genGameJson c (gameC L W b pT pR pL))])
+
+def opGen (j : Json) : Except String Json :=
+  match (getStr j "num").toOption.getD "float" with
+  | "float" => opGenWith floatCodec j
+  | _ => opGenWith ratCodec j
+
+def opProbStr (j : Json) : Except String Json := do
+  let xs ← (← getArr j "xs").mapM (fun x => parseNum floatCodec x)
+  pure (Json.mkObj [("outcome", "ok"), ("res", Json.arr (xs.map (fun x => Json.str (probToStr x))))])
+
+def getF (j : Json) (k : String) : Except String Float := do parseNum floatCodec (← j.getObjVal? k)
+
+def opFileName (j : Json) : Except String Json := do
+  let r := fileName (← getNat j "seed") (← getNat j "width") (← getNat j "length") (← getNat j "maxreward")
+    (← getF j "probot") (← getF j "plight") (← getF j "ptile") (← getF j "ploose") (getBoolD j "forcedown" false)
+  pure (Json.mkObj [("outcome", "ok"), ("res", Json.str r)])
+
+def opManualName (j : Json) : Except String Json := do
+  let b ← parseBoard (← j.getObjVal? "board")
+  pure (Json.mkObj [("outcome", "ok"),
+    ("res", Json.str (manualFileName b (← getF j "probot") (← getF j "plight") (← getF j "ptile")))])
+
+def getInt (j : Json) (k : String) : Except String Int := do (← j.getObjVal? k).getInt?
+
+def opCheckInput (j : Json) : Except String Json := do
+  let r := checkInput (← getInt j "seed") (← getInt j "width") (← getInt j "length") (← getF j "probot")
+    (← getF j "plight") (← getF j "ploose") (← getF j "ptile") (← getInt j "maxreward")
+  pure (Json.mkObj [("outcome", "ok"), ("res", match r with
+    | none => Json.null
+    | some k => Json.num k)])
+
+def opBoard (j : Json) : Except String Json := do
+  let us ← (← getArr j "us").mapM (fun x => parseNum floatCodec x)
+  let rows ← natMatrix (← j.getObjVal? "rows")
+  let downs ← natList (← j.getObjVal? "downs")
+  let b := genBoard (← getNat j "length") (← getNat j "width") (← getF j "ploose") (← getNat j "maxreward")
+    (getBoolD j "forcedown" false) { us := us.toList, rows := rows, downs := downs }
+  let mat (m : List (List Nat)) : Json :=
+    Json.arr (m.toArray.map (fun r => Json.arr (r.toArray.map (fun (n : Nat) => Json.num n))))
+  pure (Json.mkObj [("outcome", "ok"), ("moves", mat b.moves), ("rewards", mat b.rewards), ("loose", mat b.loose)])
+
+partial def parsePyVal (j : Json) : Except String PyVal := do
+  let t ← getStr j "t"
+  match t with
+  | "none" => pure .none
+  | "bool" => pure (.bool (getBoolD j "v" false))
+  | "int" => pure (.int (← getInt j "v"))
+  | "float" => pure (.float (← getF j "v"))
+  | "str" => pure (.str (← getStr j "v"))
+  | "tuple" => do
+    let a ← getArr j "v"
+    let l ← a.mapM parsePyVal
+    pure (.tuple l.toList)
+  | "list" => do
+    let a ← getArr j "v"
+    let l ← a.mapM parsePyVal
+    pure (.list l.toList)
+  | "dict" => pure (.dict (← getNat j "v"))
+  | _ => throw s!"bad tag {t}"
+
+def parsePyNum (j : Json) : Except String PyNum := do
+  let t ← getStr j "t"
+  match t with
+  | "int" => pure (.int (← getInt j "v"))
+  | "bool" => pure (.int (if getBoolD j "v" false then 1 else 0))
+  | "float" => pure (.float (← getF j "v"))
+  | _ => throw s!"bad number tag {t}"
+
+def parsePyGame (j : Json) : Except String PyGame := do
+  let rewards ← (← getArr j "rewards").mapM parsePyNum
+  let players ← (← getArr j "players").mapM (·.getStr?)
+  let tl ← (← getArr j "tl").mapM parsePyVal
+  let finals ← (← getArr j "finals").mapM (·.getInt?)
+  pure { rewards := rewards.toList, players := players.toList, tl := tl.toList, finals := finals.toList }
+
+/-- validation + solve of a dynamically typed description -/
+def opValidate (j : Json) : Except String Json := do
+  let g ← parsePyGame (← j.getObjVal? "game")
+  let thr ← getF j "thr"
+  let fuel := getNatD j "fuel" 200000
+  let prune := getBoolD j "prune" true
+  match validate g with
+  | .error e => pure (Json.mkObj [("outcome", "ok"), ("validate", errJson e), ("solve", errJson e)])
+  | .ok _ =>
+    let s := match solvePy thr fuel prune g with
+      | .error e => errJson e
+      | .ok r => solveOutJson floatCodec r
+    pure (Json.mkObj [("outcome", "ok"), ("validate", Json.mkObj [("outcome", "ok")]), ("solve", s)])
+
+def entryJson (e : Entry) : Json :=
+  let m := match e.msg with
+    | .solved => Json.mkObj [("kind", "solved")]
+    | .notSolved => Json.mkObj [("kind", "notsolved")]
+    | .error err => Json.mkObj [("kind", "error"), ("err", errJson err)]
+  Json.mkObj [("n_states", Json.num e.nStates), ("n_transitions", Json.num e.nTransitions), ("msg", m),
+    ("out", match e.out with
+      | none => Json.null
+      | some r => solveOutJson floatCodec r)]
+
+def opBatch (j : Json) : Except String Json := do
+  let games ← (← getArr j "games").mapM (fun kv => do
+    let name ← getStr kv "name"
+    let g ← parsePyGame (← kv.getObjVal? "game")
+    pure (name, g))
+  let thr ← getF j "thr"
+  let fuel := getNatD j "fuel" 200000
+  match runGames thr fuel games.toList with
+  | .error e => pure (Json.mkObj [("outcome", "aborted"), ("err", errJson e)])
+  | .ok d => pure (Json.mkObj [("outcome", "ok"),
+      ("entries", Json.arr (d.toArray.map (fun (k, e) => Json.mkObj [("key", Json.str k), ("entry", entryJson e)])))])
+
+end CR.Drv
+
 def handle (line : String) : Json :=
   match Json.parse line with
   | .error e => Json.mkObj [("outcome", "bad-request"), ("detail", Json.str e)]
@@ -192,13 +343,14 @@ def handle (line : String) : Json :=
       | "prune", _ => opPrune ratCodec j
       | "solve", "float" => opSolve floatCodec j
       | "solve", _ => opSolve ratCodec j
---      | "gen", _ => CR.Drv.opGen j
---      | "probstr", _ => CR.Drv.opProbStr j
---      | "filename", _ => CR.Drv.opFileName j
---      | "checkinput", _ => CR.Drv.opCheckInput j
---      | "board", _ => CR.Drv.opBoard j
---      | "validate", _ => CR.Drv.opValidate j
---      | "batch", _ => CR.Drv.opBatch j
+      | "gen", _ => CR.Drv.opGen j
+      | "probstr", _ => CR.Drv.opProbStr j
+      | "filename", _ => CR.Drv.opFileName j
+      | "checkinput", _ => CR.Drv.opCheckInput j
+      | "board", _ => CR.Drv.opBoard j
+      | "validate", _ => CR.Drv.opValidate j
+      | "batch", _ => CR.Drv.opBatch j
+      | "manualname", _ => CR.Drv.opManualName j
       | _, _ => throw s!"unknown op {op}"
     match r with
     | .ok v => v
